@@ -630,7 +630,7 @@ fn is_abort(p: &Box<dyn Any + Send>) -> bool {
   p.is::<Abort>()
 }
 
-const STACK: usize = 32 << 20;
+const STACK: usize = 8 << 20;
 
 /// register + start a new thread of the current execution; returns its tid
 pub(crate) fn spawn_in(ctx: &Ctx, name: Option<String>, lib: bool, body: Box<dyn FnOnce() + Send>) -> usize {
@@ -715,17 +715,12 @@ where
     done_cv: StdCondvar::new(),
     hash_seed: cfg.schedule.hash_seed,
   });
+  // thread 0 runs on the calling OS thread (no thread creation for sequential cases)
   {
-    let e2 = exec.clone();
-    let h = std::thread::Builder::new()
-      .stack_size(STACK)
-      .spawn(move || thread_main(e2, 0, Box::new(main)))
-      .expect("spawn OS thread");
     let mut st = lock_state(&exec);
-    st.os_handles.push((0, h));
     st.cur = Some(0);
-    st.threads[0].cv.notify_all();
   }
+  thread_main(exec.clone(), 0, Box::new(main));
   // wait for the end
   {
     let mut st = lock_state(&exec);
